@@ -518,12 +518,13 @@ pub fn c06_part(run: &RunInfo) -> Acc {
     // data block answering request j, last = the acknowledgement of the completion)
     let wacc = par_for(words.len(), |ix, acc| {
         let w = &words[ix];
+        for (fin_label, fin_bytes) in [("completion", completion.clone()), ("abort", vec![0x06u8, 0x1e, 0x01, 0x6c])] {
         for wf in 0..=w.len() + 1 {
             let mut incoming = ACK.to_vec();
             for i in w {
                 incoming.extend(&req_bytes[*i]);
             }
-            incoming.extend(&completion);
+            incoming.extend(&fin_bytes);
             let sh: Sh = Rc::new(RefCell::new(Ctx::new(vec![], vec![], 0)));
             let s = Scripted::new(sh, incoming.clone(), Chunking::Greedy);
             s.st.borrow_mut().eof_at = Some(incoming.len());
@@ -534,7 +535,7 @@ pub fn c06_part(run: &RunInfo) -> Acc {
             acc.count("fault_cases", 1);
             acc.count("kind:write-failure", 1);
             acc.count("transitions", (w.len() + 2) as u64);
-            acc.set("outcomes", h64(&("WriteFile", w, "write-failure", wf)));
+            acc.set("outcomes", h64(&("WriteFile", w, "write-failure", wf, fin_label)));
             let yielded = wf.saturating_sub(1);
             let mut problems = vec![];
             if let Some(p) = &log.panic {
@@ -558,11 +559,12 @@ pub fn c06_part(run: &RunInfo) -> Acc {
             } else {
                 let name: Vec<String> = w.iter().map(|i| reqs[*i].label()).collect();
                 acc.violation(viol(
-                    format!("c06/WriteFile/script={}/write-failure-at={wf}", name.join(",")),
-                    format!("firmware upload of one 17-byte file, block size {block}\nrequests: {}, then completion\nthe connection breaks on the writing side: write number {wf} fails (0 = the file list, j = the data block answering request j, {} = the acknowledgement of the completion)\n{}\nevent log:\n{}", name.join(", "), w.len() + 1, problems.join("\n"), render_events(&events)),
+                    format!("c06/WriteFile/script={}/{fin_label}/write-failure-at={wf}", name.join(",")),
+                    format!("firmware upload of one 17-byte file, block size {block}\nrequests: {}, then {fin_label}\nthe connection breaks on the writing side: write number {wf} fails (0 = the file list, j = the data block answering request j, {} = the acknowledgement of the completion)\n{}\nevent log:\n{}", name.join(", "), w.len() + 1, problems.join("\n"), render_events(&events)),
                     w.len() as u64,
                 ));
             }
+        }
         }
     });
     let mut acc = acc;
